@@ -732,9 +732,11 @@ def rule_o7(ctx, facts):
 
     def named_source(b, l):
         seen = set()
-        fil = b.raw.get("first_inlined_local")
         # (the parameter of an inlined helper has a name of its own but is only another name for what the caller passed)
-        while l is not None and l not in seen and (not b.local_name(l) or (fil is not None and l >= fil)):
+        def is_inlined_param(x):
+            ds = [d for d in b.defs.get(x, []) if d[1] in ("assign", "call", "arg")]
+            return len(ds) == 1 and ds[0][1] == "assign" and ds[0][2].get("inlined_arg")
+        while l is not None and l not in seen and (not b.local_name(l) or is_inlined_param(l)):
             seen.add(l)
             ds = [d for d in b.defs.get(l, []) if d[1] in ("assign", "call", "arg")]
             if len(ds) != 1 or ds[0][1] != "assign" or "use" not in ds[0][2]["rv"]:
